@@ -21,6 +21,13 @@ mod proofs {
         assert!(logic::c09_merge(&inp).is_ok());
     }
 
+    // deliberately failing: used by `./check selftest-kani` to test the counterexample -> replay path
+    #[kani::proof]
+    fn k_selftest_fail() {
+        let inp: [u8; 3] = kani::any();
+        assert!(super::logic::selftest(&inp).is_ok());
+    }
+
     #[kani::proof]
     #[kani::unwind(8)]
     fn k_c18_ser_str() {
